@@ -15,6 +15,10 @@
 //	C. every unordered pair of declarations of B (quick: unquoted length <= 2, quoted content <= 2;
 //	   thorough: unquoted <= 3, quoted content <= 2, both declaration orders) together in one grammar.
 //
+// Violation keys: empty-id:<term|nonterm|produce>:<no-alnum|empty-quotes|other>,
+// invalid-id:<term|nonterm|produce:quoted|produce:unquoted>:<leading-digit|bad-char>, dup-id:<kind>+<kind>,
+// style:produce:<style>, panic:<where>:<site>.
+//
 // Oracle (B, C): compiler.Compile succeeds => every Syms[i].ID matches ^[A-Za-z_][A-Za-z0-9_]*$ and
 // no two distinct symbols have the same ID (a collision must have produced a compile error).
 // Oracle (A): the identifier matches the same pattern; the upper-case styles contain no lower-case
@@ -28,6 +32,7 @@ import (
 	"encoding/json"
 	"fmt"
 	"regexp"
+	"runtime/debug"
 	"strings"
 	"sync"
 	"sync/atomic"
@@ -342,6 +347,7 @@ type result struct {
 }
 
 func run(c *core.Ctx) {
+	debug.SetGCPercent(400) // thousands of tiny compilations on 16 goroutines: the collector was half of the cost
 	c.Rule("A: every admitted spelling (unquoted over {a,B,_,-,1}, '..' and \"..\" over {a,B,_,-,1,+,\\,',\",é}) x 4 ident styles; " +
 		"B: each spelling declared alone as terminal and as nonterminal in a minimal grammar through compiler.Compile; " +
 		"C: every pair of declarations the parser admits (B outcome is not a syntax error) in one grammar. Non-trivial = Compile got as far as " +
